@@ -48,6 +48,7 @@ struct Exec {
     std::map<std::string, bool> nt;
     std::string prop;                     // property being checked (selects profile-specific behaviour only)
     bool ctx_teardown = false, torn_in_teardown = false;
+    int handlers_in_dispatch = 0; bool errno_poisoned_in_dispatch = false;
     bool unobserved_mode = false; int ctx_gen = 0; long excluded_kf = 0; double dispatch_began_at = 0;
     std::vector<long> pending_free_checks; void check_pending_frees();
     bool nt_last_illegal = false; long fd_bytes[8];
